@@ -124,6 +124,15 @@ CLAIMED = {
         note="A4 lru_cache semantics; eviction is irrelevant to soundness; known findings D16 (Parameter root through "
              "_compile_cached), D1",
         design="6 C14"),
+    "C19": dict(
+        text="_sanitize_derivatives is proved over an extended-real abstraction of arrays (class finite/NaN/+Inf/-Inf per entry): "
+             "every entry finite afterwards, finite entries unchanged, NaN -> 0, +-Inf -> +-1e16; and for every closure returned by "
+             "the derivative builders a sound finite-preservation check of the real return expressions shows it is either an "
+             "application of the sanitiser or built from its input by finite-preserving operations only.",
+        note="A1/A2: IEEE evaluation at singular points and overflow of finite-preserving operations are outside the model; the "
+             "closure check is a syntactic abstraction (sound, not complete), not an SMT obligation; 'identical on general and "
+             "vectorised paths' additionally relies on C03",
+        design="6 C19"),
 }
 
 NOT_YET = "check not built yet (work in progress; see DESIGN.md section 6 for the plan)"
